@@ -28,6 +28,12 @@ PRELUDE = [
     "(define mk-counter-b (lambda () (begin (define n 0) (lambda () (set! n (+ n 1)) n))))",
     "(define (mk-vec-d) (define v (vector 0 0)) v)",
     "(define (local-g) (define g 7) (set! g (+ g 1)) g)",
+    # procedures that RETURN one of their own variables (a bare identifier in tail position) after a closure over that very
+    # variable has escaped: the closure keeps the binding, the caller gets the value
+    "(define keep '())",
+    "(define (mk-kept n) (set! keep (cons (lambda () (set! n (+ n 1)) n) keep)) n)",
+    "(define (mk-kept-d k) (define n k) (set! keep (cons (lambda () (set! n (+ n 1)) n) keep)) (if (< k 0) 0 n))",
+    "(define (mk-kept-v v) (set! keep (cons (lambda () v) keep)) v)",
     "(define g 0)",
     "(define (bump-g!) (set! g (+ g 1)) g)",
     "(define (shadow-g) (let ((g 100)) (set! g (+ g 1)) g))",
@@ -63,7 +69,7 @@ class Sim:
 
     def step(self):
         r = self.rng
-        ops = ["counter-new", "pair-new", "vec-new", "bump", "counters-batch", "cells-batch"]
+        ops = ["counter-new", "pair-new", "vec-new", "bump", "counters-batch", "cells-batch", "kept-new", "kept-vec"]
         if self.counters: ops += ["counter-call"] * 3
         if len(self.counters) >= 2: ops += ["counter-assign"] * 2
         if len(self.vecs) >= 2: ops += ["vec-assign"] * 3
@@ -77,6 +83,16 @@ class Sim:
         if op == "counter-new":
             n = self.fresh("c"); self.counters[n] = [0]
             self.emit("(define %s (%s))" % (n, r.choice(["mk-counter", "mk-counter-d", "mk-counter-d", "mk-counter-b"])), "N")
+        elif op == "kept-new":
+            k = r.randrange(0, 50); which = r.choice(["mk-kept", "mk-kept-d"])
+            self.emit("(%s %d)" % (which, k), "V i:%d" % k)
+            n = self.fresh("c"); self.counters[n] = [k]
+            self.emit("(define %s (car keep))" % n, "N")
+        elif op == "kept-vec":
+            n = self.fresh("v"); self.vecs[n] = [0, 0]
+            self.emit("(define %s (mk-kept-v (vector 0 0)))" % n, "N")
+            m = self.fresh("w"); self.vecs[m] = self.vecs[n]
+            self.emit("(define %s ((car keep)))" % m, "N")
         elif op == "counters-batch":
             k = r.randrange(2, 5); L = self.fresh("b")
             which = r.choice(["mk-counters %d '()", "mk-counters-a %d '()", "mk-counters-nt %d"])
